@@ -91,6 +91,12 @@ Proof.
   destruct (from_bytes_gen true ver r3) as [[c r4]|e| |]; cbn [bind]; try contradiction; split; discriminate.
 Qed.
 
+Lemma read_total_cli_proof : forall bs, Known_C15_disasm bs = false -> exists e, read_pyc bs = Err e.
+Proof.
+  intros bs H. unfold Known_C15_disasm in H. destruct (read_pyc_total_proof bs) as [A B].
+  destruct (read_pyc bs) as [x|e| |]; try discriminate; try contradiction. now exists e.
+Qed.
+
 (* ------------------------------------------------------------------ the design-round state, refuted *)
 Lemma py_loads_dumps_nofix_refuted_proof :
   exists v b, serialisable v = true /\ vdepth v <= MAX_MARSHAL_STACK_DEPTH /\ into_bytes_nofix 11 v = Ok b
